@@ -30,7 +30,7 @@
 static KSI_CTX *ctx;
 
 /* ------------------------------------------------------------------ reference primitives (independent of libksi) */
-#define RN_MAX 240
+#define RN_MAX 420
 typedef struct { unsigned char d[RN_MAX]; size_t n; int level; } RN;          /* node: imprint (or metadata payload) + level */
 typedef struct { int isLeft; uint64_t corr; unsigned char s[RN_MAX]; size_t sn; int is_md; int is_legacy; } RLink;
 
@@ -148,7 +148,7 @@ typedef struct {
 	int kind;            /* 0 data hash, 1 metadata */
 	int level;           /* as passed to the library (may be out of range) */
 	RN ref;              /* imprint, or reference-encoded metadata fields (without padding) for kind 1 */
-	char client[48], machine[48]; int has_machine, has_seq, has_time; uint64_t seq, tm;
+	char client[320], machine[48]; int has_machine, has_seq, has_time; uint64_t seq, tm;
 	/* run state */
 	KSI_TreeLeafHandle *h; int accepted; RN node; /* node as hashed into the tree (metadata: payload taken from the library, validated) */
 } Leaf;
@@ -163,6 +163,7 @@ static void leaf_material(Leaf *lf, uint64_t seed, int idx) {
 		lf->ref.n = dl + 1;
 	} else {
 		size_t cl = 1 + vh_below(24), ml, o = 0; unsigned char *d = lf->ref.d;
+		if (vh_below(6) == 0) cl = 225 + vh_below(40);     /* record and field sizes around 255 / 256 bytes (one byte / two byte length forms) */
 		for (i = 0; i < cl; i++) lf->client[i] = "abcdefghijklmnopqrstuvwxyz0123456789-_.:"[vh_below(40)];
 		lf->client[cl] = 0;
 		lf->has_machine = vh_below(3) == 0; lf->has_seq = vh_below(3) == 0; lf->has_time = vh_below(3) == 0;
